@@ -16,7 +16,6 @@ pub uninterp spec fn sig_input_spec(m: http::Method, u: http::Uri, h: http::Head
 pub uninterp spec fn mac_spec(key: Seq<char>, input: Seq<u8>) -> Seq<char>;                 // hex(HMAC-SHA256(unhex(key), input))
 pub uninterp spec fn is_current_date(s: Seq<char>) -> bool;                                 // produced by get_date_time_rfc1123_string in this call
 pub uninterp spec fn body_is_empty(b: http_body_util::combinators::BoxBody<hyper::body::Bytes, hyper::Error>) -> bool;
-pub uninterp spec fn fail_ev_of(s: crate::proxy::proxy_summary::ProxySummary) -> FailEv;
 
 // ---- core::str ----
 pub uninterp spec fn pat_view<P>(p: P) -> Seq<char>;
@@ -28,3 +27,16 @@ pub assume_specification [http::Uri::path] (u: &http::Uri) -> (r: &str)
     ensures r@ == uri_path(*u);
 #[verifier::external_body] pub broadcast proof fn axiom_fmt_error() ensures #[trigger] vstd::std_specs::fmt::fmt_req_all::<crate::common::error::Error>() {}
 #[verifier::external_body] pub broadcast proof fn axiom_fmt_serde_error() ensures #[trigger] vstd::std_specs::fmt::fmt_req_all::<serde_json::Error>() {}
+#[verifier::external_type_specification] #[verifier::external_body]
+pub struct ExIpAddr(std::net::IpAddr);
+#[verifier::external_type_specification] #[verifier::external_body]
+pub struct ExSerdeJsonError(serde_json::Error);
+pub assume_specification [std::time::Instant::elapsed] (i: &std::time::Instant) -> std::time::Duration;
+pub assume_specification [std::time::Duration::as_millis] (d: &std::time::Duration) -> u128;
+pub assume_specification [std::net::SocketAddr::ip] (a: &std::net::SocketAddr) -> std::net::IpAddr;
+pub assume_specification [std::net::SocketAddr::port] (a: &std::net::SocketAddr) -> u16;
+pub assume_specification<T: ?Sized + serde::Serialize> [serde_json::to_string] (v: &T) -> std::result::Result<std::string::String, serde_json::Error>;
+#[verifier::external_body] pub broadcast proof fn axiom_fmt_ipaddr() ensures #[trigger] vstd::std_specs::fmt::fmt_req_all::<std::net::IpAddr>() {}
+#[verifier::external_body]
+pub broadcast proof fn axiom_to_string_status(t: &http::StatusCode, s: String)
+    ensures #[trigger] vstd::string::to_string_from_display_ensures::<http::StatusCode>(t, s) <==> s@ == status_text(*t) {}
